@@ -208,17 +208,18 @@ theorem Reach.mono {agg : Nat → Bool} {s s' : Refs} {a b : Nat}
 
 /-- **The recursion finishes and does what it should**, by induction on the fuel: whenever more
 fuel is left than there are unvisited candidates, the call returns, and its effect is `PostD`. -/
-theorem deleteV_spec (agg : Nat → Bool) (dtr : Bool) (U : List Nat) :
+theorem deleteV_spec_flag (agg : Nat → Bool) (dtr : Bool) (U : List Nat) :
     ∀ fuel sp n v, C28.Inv sp.refs → TgtIn U sp.refs → n ∈ U → remaining U v < fuel →
       ∃ sp' b v' D, deleteV agg dtr fuel sp n v = some (sp', b, v') ∧
-        PostD agg dtr sp v sp' v' D ∧ n ∈ v' ∧ ∀ x ∈ D, Reach agg sp.refs n x := by
+        PostD agg dtr sp v sp' v' D ∧ n ∈ v' ∧ (∀ x ∈ D, Reach agg sp.refs n x) ∧
+        (n ∉ v → n ∈ sp.nodes → b = true) := by
   intro fuel
   induction fuel with
   | zero => intro sp n v _ _ _ h; omega
   | succ fuel ih =>
     intro sp n v hi ht hn hr
     by_cases hv : n ∈ v
-    · refine ⟨sp, false, v, [], ?_, PostD.refl agg dtr sp v hi, hv, by simp⟩
+    · refine ⟨sp, false, v, [], ?_, PostD.refl agg dtr sp v hi, hv, by simp, fun h => absurd hv h⟩
       simp [deleteV, hv]
     · have hlt : remaining U (n :: v) < fuel := by
         have := remaining_cons_lt U v n hn hv; omega
@@ -232,7 +233,7 @@ theorem deleteV_spec (agg : Nat → Bool) (dtr : Bool) (U : List Nat) :
         | nil => intro sp0 v0 hi0 _ _ _; exact ⟨sp0, v0, [], rfl, PostD.refl agg dtr sp0 v0 hi0, by simp, by simp⟩
         | cons c cs ihc =>
           intro sp0 v0 hi0 ht0 hcs hr0
-          obtain ⟨sp1, b1, v1, D1, e1, p1, hc1, hre1⟩ := ih sp0 c v0 hi0 ht0 (hcs c List.mem_cons_self) hr0
+          obtain ⟨sp1, b1, v1, D1, e1, p1, hc1, hre1, -⟩ := ih sp0 c v0 hi0 ht0 (hcs c List.mem_cons_self) hr0
           have hsub : ∀ x ∈ v0, x ∈ v1 := by
             rw [p1.vis]; intro x hx; exact List.mem_append_right _ hx
           have hr1 : remaining U v1 < fuel := Nat.lt_of_le_of_lt (remaining_mono U v0 v1 hsub) hr0
@@ -255,13 +256,28 @@ theorem deleteV_spec (agg : Nat → Bool) (dtr : Bool) (U : List Nat) :
         exact ht n u c hr
       obtain ⟨sp1, v1, Dc, e, p, hc, hre⟩ := hfold _ sp (n :: v) hi ht hcs hlt
       have hn1 : n ∈ v1 := by rw [p.vis]; exact List.mem_append_right _ List.mem_cons_self
-      refine ⟨(removeNode sp1 n dtr).1, (removeNode sp1 n dtr).2, v1, Dc ++ [n], ?_, p.final hv hc, hn1, ?_⟩
+      refine ⟨(removeNode sp1 n dtr).1, (removeNode sp1 n dtr).2, v1, Dc ++ [n], ?_, p.final hv hc, hn1, ?_, ?_⟩
       · simp [deleteV, hv, e]
+      rotate_left
+      · intro _ hex
+        have hnd : n ∉ Dc := fun hd => p.fresh n hd List.mem_cons_self
+        have hc1 : n ∈ sp1.nodes := by
+          rw [p.nodes]; simp [List.mem_filter, hex, hnd]
+        unfold removeNode
+        cases dtr <;> simp [hc1]
       · intro x hx
         rcases List.mem_append.1 hx with hx | hx
         · obtain ⟨c, hc', hr'⟩ := hre x hx
           obtain ⟨u, ha, hru⟩ := (mem_aggregatesOf agg sp n c).1 hc'
           exact (Reach.step Reach.refl ha hru).trans hr'
         · simp at hx; subst hx; exact Reach.refl
+
+theorem deleteV_spec (agg : Nat → Bool) (dtr : Bool) (U : List Nat) :
+    ∀ fuel sp n v, C28.Inv sp.refs → TgtIn U sp.refs → n ∈ U → remaining U v < fuel →
+      ∃ sp' b v' D, deleteV agg dtr fuel sp n v = some (sp', b, v') ∧
+        PostD agg dtr sp v sp' v' D ∧ n ∈ v' ∧ ∀ x ∈ D, Reach agg sp.refs n x := by
+  intro fuel sp n v hi ht hn hr
+  obtain ⟨sp', b, v', D, e, p, h1, h2, -⟩ := deleteV_spec_flag agg dtr U fuel sp n v hi ht hn hr
+  exact ⟨sp', b, v', D, e, p, h1, h2⟩
 
 end OpcuaVerif.C29
